@@ -87,6 +87,13 @@ def plan(tier, seed):
     for i in range(len(PATHS)):
         jobs.append({'space': 'B', 'path': i, 'tier': tier, 'weight': 300})
     jobs.append({'space': 'W', 'tier': tier, 'weight': 50})
+    nmax = 9 if tier == 'quick' else 11
+    for n in range(1, nmax + 1):
+        k = 1 if n < 8 else 4 if n < 10 else 16
+        for i in range(k):
+            jobs.append({'space': 'E', 'len': n, 'shard': i, 'of': k,
+                         'tier': tier,
+                         'weight': lang.count_sentences(n) * 3 / k})
     return jobs
 
 
@@ -151,10 +158,69 @@ def check_leaf(acc, enf, space, text_ok, leaf, target, creds, nontrivial):
                 ('allow' if exp else 'deny'))
 
 
+E_LEAVES = ['a:x', "'x':%(t)s", 'class:x', '0x:1', '..:x', 'a.b:%(t)s',
+            "{[]}:x", ':x', 'role:r', 'lambda:%(missing)s']
+E_WORLDS = [({'t': 'x'}, {'a': 'x', 'roles': ['r'], 'class': 'x'}),
+            ({'t': None}, {'a': {'b': [None, 'x']}, '': 'x'}),
+            ({}, {})]
+
+
+def run_E(acc, enf, job):
+    """Every sentence shape of the language (up to a token bound) with
+    hostile leaves in the leaf positions: the SHAPE must not make evaluation
+    crash either, and the decision is the Boolean combination of the leaves'
+    own decisions (each leaf decided alone by the same library)."""
+    alone = {}
+    for li, leaf in enumerate(E_LEAVES):
+        world.set_rules(enf, {'p': [[leaf]]})
+        for wi, (t, c) in enumerate(E_WORLDS):
+            alone[(li, wi)] = attempt(enf, 'p', t, dict(c))
+    n = job['len']
+    for si, tokens in enumerate(core.shard_iter(iter(lang.sentences(n)),
+                                                job['shard'], job['of'])):
+        k = tokens.count('L')
+        idxs = [(si + j) % len(E_LEAVES) for j in range(k)]
+        text = lang.to_text(tokens, [E_LEAVES[i] for i in idxs])
+        ast = lang.parse(lang.lex(text))
+        try:
+            world.set_rules(enf, {'p': text})
+        except Exception as e:
+            acc.violation('E|load-raises|%s' % type(e).__name__,
+                          'loading %r raised %r' % (text, e), {'rule': text},
+                          'loads', repr(e), 'E')
+            continue
+        acc.case('E', k >= 2)
+        for wi, (t, c) in enumerate(E_WORLDS):
+            acc.ev()
+            got = attempt(enf, 'p', t, dict(c))
+            if got[0] == 'exc':
+                acc.violation('E|%s|%s' % (got[1], got[2]),
+                              'enforcing %r raised %s in %s; target %r creds '
+                              '%r' % (text, got[1], got[2], t, c),
+                              {'rule': text, 'target': t, 'creds': c},
+                              'a decision', got, 'E')
+                continue
+            vals = {E_LEAVES[i]: alone[(i, wi)] for i in set(idxs)}
+            if any(v[0] != 'ok' for v in vals.values()):
+                continue
+            exp = lang.evaluate(ast, lambda leaf: vals[leaf][1])
+            if got[1] != exp:
+                acc.violation('E|decision', '%r decides %r, its leaves '
+                              'decide %r, so the expression should give %r'
+                              % (text, got[1], vals, exp),
+                              {'rule': text, 'target': t, 'creds': c}, exp,
+                              got[1], 'E')
+            acc.outcome('E-%s' % exp)
+    acc.sample('E', {'leaves': E_LEAVES})
+
+
 def run(job, seed):
     acc = core.Acc()
     enf = world.bare_enforcer()
     b = BOUNDS[job['tier']]
+    if job['space'] == 'E':
+        run_E(acc, enf, job)
+        return acc.result()
     if job['space'] == 'W':
         # whole rules that are a single non-check token, enforced directly
         # and through references: must deny, never raise
